@@ -196,6 +196,9 @@ func firstDiff(path string, a, b any) string {
 		for _, k := range ks {
 			xv, xo := x[k]
 			yv, yo := y[k]
+			if (!xo && yv == nil) || (!yo && xv == nil) {
+				continue // an omitted key and an explicit null are the same AST
+			}
 			if !xo || !yo {
 				return fmt.Sprintf("%s.%s: present %v vs %v (%s | %s)", path, k, xo, yo, short(xv), short(yv))
 			}
@@ -349,4 +352,163 @@ func hasNestedTemplateString(src []byte) bool {
 		}
 	}
 	return false
+}
+
+// ---------------------------------------------------------------- shrinking (non-rapid checks)
+
+// shrinkBytes greedily minimises input while fails(input) keeps returning true: chunk deletion with
+// halving chunk sizes (ddmin style), bounded by a step budget. Deterministic.
+func shrinkBytes(input []byte, fails func([]byte) bool, budget int) []byte {
+	cur := append([]byte(nil), input...)
+	steps := 0
+	for chunk := len(cur) / 2; chunk >= 1; {
+		progress := false
+		for start := 0; start+chunk <= len(cur) && steps < budget; {
+			cand := append(append([]byte(nil), cur[:start]...), cur[start+chunk:]...)
+			steps++
+			if fails(cand) {
+				cur = cand
+				progress = true
+			} else {
+				start += chunk
+			}
+		}
+		if steps >= budget {
+			break
+		}
+		if !progress || chunk > len(cur) {
+			chunk /= 2
+		}
+		if chunk > len(cur)/2 && len(cur) > 1 {
+			chunk = len(cur) / 2
+		}
+	}
+	return cur
+}
+
+// shrinkStructured complements shrinkBytes with bracket-aware deletions: whole balanced groups, their
+// contents, single lines, comments and words; repeated to a fixed point (bounded).
+func shrinkStructured(input []byte, fails func([]byte) bool, budget int) []byte {
+	cur := append([]byte(nil), input...)
+	steps := 0
+	try := func(cand []byte) bool {
+		if steps >= budget || len(cand) >= len(cur) {
+			return false
+		}
+		steps++
+		if fails(cand) {
+			cur = cand
+			return true
+		}
+		return false
+	}
+	cut := func(i, j int) []byte { // remove [i,j)
+		return append(append([]byte(nil), cur[:i]...), cur[j:]...)
+	}
+	match := func(i int) int {
+		open := cur[i]
+		var cl byte
+		switch open {
+		case '(':
+			cl = ')'
+		case '[':
+			cl = ']'
+		case '{':
+			cl = '}'
+		case '<':
+			cl = '>'
+		default:
+			return -1
+		}
+		d := 0
+		for j := i; j < len(cur); j++ {
+			if cur[j] == open {
+				d++
+			} else if cur[j] == cl {
+				d--
+				if d == 0 {
+					return j
+				}
+			}
+		}
+		return -1
+	}
+	for round := 0; round < 20 && steps < budget; round++ {
+		before := len(cur)
+		for i := 0; i < len(cur) && steps < budget; i++ {
+			c := cur[i]
+			switch {
+			case c == '(' || c == '[' || c == '{' || c == '<':
+				if j := match(i); j > i {
+					if try(cut(i, j+1)) || (j > i+1 && try(cut(i+1, j))) {
+						i--
+					}
+				}
+			case c == '/' && i+1 < len(cur) && cur[i+1] == '*':
+				if j := bytes.Index(cur[i+2:], []byte("*/")); j >= 0 && try(cut(i, i+2+j+2)) {
+					i--
+				}
+			case c == '/' && i+1 < len(cur) && cur[i+1] == '/':
+				j := bytes.IndexByte(cur[i:], '\n')
+				if j < 0 {
+					j = len(cur) - i
+				}
+				if try(cut(i, i+j)) {
+					i--
+				}
+			case isWord(c) && (i == 0 || !isWord(cur[i-1])):
+				j := i
+				for j < len(cur) && isWord(cur[j]) {
+					j++
+				}
+				if !try(cut(i, j)) && j-i > 1 {
+					cand := append(append(append([]byte(nil), cur[:i]...), 'a'), cur[j:]...)
+					try(cand)
+				}
+			}
+		}
+		// lines
+		for _, sep := range []byte{'\n', ';'} {
+			start := 0
+			for start < len(cur) && steps < budget {
+				k := bytes.IndexByte(cur[start:], sep)
+				end := len(cur)
+				if k >= 0 {
+					end = start + k + 1
+				}
+				if !try(cut(start, end)) {
+					start = end
+				}
+				if k < 0 {
+					break
+				}
+			}
+		}
+		cur = shrinkBytes(cur, func(b []byte) bool {
+			if steps >= budget {
+				return false
+			}
+			steps++
+			return fails(b)
+		}, 400)
+		if len(cur) == before {
+			break
+		}
+	}
+	return cur
+}
+
+func isWord(c byte) bool {
+	return c == '_' || c >= '0' && c <= '9' || c >= 'a' && c <= 'z' || c >= 'A' && c <= 'Z'
+}
+
+// msgClass is the part of a violation message that identifies its kind (text before the first digit run / detail).
+func msgClass(msg string) string {
+	if i := strings.IndexAny(msg, "0123456789"); i > 12 {
+		msg = msg[:i]
+	}
+	if len(msg) > 60 {
+		msg = msg[:60]
+	}
+	return msg
 }
